@@ -359,6 +359,24 @@ def _normal_form_by_execution(ctx, ck, rules, map_only: bool = False) -> bool:
             ([scal('k0'), inv(A), A], 'scalar-only'),
             ([inv(A), scal('k0'), A], 'scalar-only'),
         ]
+        tr_cls = table.find(f'{CORE}.TransposeOperator')
+        if tr_cls is not None:
+            def tr(o):
+                return Obj(tr_cls, {'operator': o, '__out__': small, 'name': o.attrs['name'] + '.T'})
+
+            # a lazy transpose is not a lazy inverse: only X.I next to X itself cancels, whatever X wraps
+            iA, tA = inv(A), tr(A)
+            itA, tiA = inv(tA), tr(iA)
+            cases += [
+                ([tA, A], None),
+                ([A, tA], None),
+                ([tiA, iA], None),
+                ([iA, tiA], None),
+                ([itA, tA], []),
+                ([tA, itA], []),
+                ([itA, A], None),
+                ([G0, tiA, iA, G1], None),
+            ]
         for chain, want in cases:
             it.steps = 0
             del it.degraded[:]
